@@ -4,6 +4,7 @@ package memberlist
 // C07 — the same histories with the event-log monitors as the deciding oracle.
 
 import (
+	"net"
 	"fmt"
 	"math"
 	"os"
@@ -123,6 +124,7 @@ func genC05(c *Ctx) *Plan {
 	sort.SliceStable(p.Ops, func(i, j int) bool { return p.Ops[i].At < p.Ops[j].At })
 	p.P["freeze_us"] = int64(r.pick(0, 0, 200, 5000, 50000))
 	p.YieldOff = genYieldOff(r)
+	p.Cfg.AliveDel = r.chance(0.5) // an accepting AliveDelegate: a preemption point if it is ever called without the node lock
 	return p
 }
 
@@ -185,6 +187,94 @@ func execC05(c *Ctx) {
 		}
 	}
 	live := cx.liveSet()
+	// after T_f: where does every alive message a live node issues about itself go? (known finding
+	// C05/refutation-gossiped-only-to-crashed-members, evaluated when a run does not converge)
+	selfAliveTo := map[string]map[uint32]map[string]bool{} // owner -> incarnation -> live destinations
+	if os.Getenv("VERIF_DEBUG") == "" {
+		liveAddr := map[string]string{}
+		for _, n := range live {
+			liveAddr[fmt.Sprintf("%s:%d", n.ip, n.port)] = n.name
+		}
+		cx.cl.net.tapFn = func(r *tapRec) {
+			if r.Stream {
+				return
+			}
+			var from *SimNode
+			for _, n := range live {
+				if n.name == r.From {
+					from = n
+				}
+			}
+			if from == nil || from.conf == nil {
+				return
+			}
+			msgs, err := decodePacket(from.conf, r.Buf)
+			if err != nil {
+				return
+			}
+			for _, wm := range msgs {
+				if wm.Type != aliveMsg {
+					continue
+				}
+				var a alive
+				if decode(wm.Body, &a) != nil {
+					continue
+				}
+				if _, isLive := liveAddr[fmt.Sprintf("%s:%d", net.IP(a.Addr), a.Port)]; !isLive {
+					continue
+				}
+				if selfAliveTo[a.Node] == nil {
+					selfAliveTo[a.Node] = map[uint32]map[string]bool{}
+				}
+				if selfAliveTo[a.Node][a.Incarnation] == nil {
+					selfAliveTo[a.Node][a.Incarnation] = map[string]bool{}
+				}
+				if dst, ok := liveAddr[r.To]; ok && dst != a.Node {
+					selfAliveTo[a.Node][a.Incarnation][dst] = true
+				}
+			}
+		}
+	}
+	pendingAtTf := false
+	for _, a := range live {
+		for _, b := range live {
+			if a != b && a.view(b.name).State == StateSuspect {
+				pendingAtTf = true
+			}
+		}
+	}
+	// refutationLost: some live node does not hold live node b alive at b's current incarnation,
+	// b has refuted (incarnation above the one it started with after T_f is not required: above 1),
+	// and no packet carrying b's alive at that incarnation was ever addressed to a live node
+	refutationLost := func() (bool, string) {
+		if os.Getenv("VERIF_DEBUG2") != "" {
+			fmt.Fprintf(os.Stderr, "DBG2 pending=%v selfAliveTo=%v\n", pendingAtTf, selfAliveTo)
+			for _, a := range live {
+				for _, b := range live {
+					fmt.Fprintf(os.Stderr, "DBG2 %s view of %s: %s (cur %d)\n", a.name, b.name, a.view(b.name), b.m.incarnation.Load())
+				}
+			}
+		}
+		if !pendingAtTf {
+			return false, ""
+		}
+		for _, b := range live {
+			cur := b.m.incarnation.Load()
+			if _, issued := selfAliveTo[b.name][cur]; !issued || len(selfAliveTo[b.name][cur]) > 0 {
+				continue // no refutation after T_f, or at least one copy was addressed to a live member
+			}
+			for _, a := range live {
+				if a == b {
+					continue
+				}
+				v := a.view(b.name)
+				if lists := v.Present && (v.State == StateAlive || v.State == StateSuspect); cur > 1 && (!lists || (v.Inc < cur && v.State != StateAlive)) {
+					return true, fmt.Sprintf("%s holds %s as %s; %s refuted at incarnation %d but every packet carrying that alive message went to members that had crashed", a.name, b.name, v, b.name, cur)
+				}
+			}
+		}
+		return false, ""
+	}
 	var dbgDump func()
 	dbgNext := []time.Duration{tf + time.Second, tf + 3*time.Second, tf + 8*time.Second, tf + 20*time.Second}
 	if os.Getenv("VERIF_DEBUG") != "" {
@@ -352,6 +442,7 @@ func execC05(c *Ctx) {
 		w = 60 * time.Second
 	}
 	var convAt time.Duration = -1
+	dbgQ := map[string]int{}
 	c.Sim.RunUntil(tf+w, func() bool {
 		if c.Failed() {
 			return true
@@ -359,6 +450,15 @@ func execC05(c *Ctx) {
 		if dbgDump != nil && len(dbgNext) > 0 && c.Sim.Now() >= dbgNext[0] {
 			dbgNext = dbgNext[1:]
 			dbgDump()
+		}
+		if os.Getenv("VERIF_DEBUG2") != "" {
+			for _, n := range live {
+				q := n.m.broadcasts.NumQueued()
+				if dbgQ[n.name] != q {
+					fmt.Fprintf(os.Stderr, "DBG2 t=%v %s queued=%d (was %d) numNodes=%d\n", c.Sim.Now(), n.name, q, dbgQ[n.name], n.m.estNumNodes())
+					dbgQ[n.name] = q
+				}
+			}
 		}
 		if cx.stepCount%16 != 0 {
 			return false
@@ -372,6 +472,11 @@ func execC05(c *Ctx) {
 	if !c.Failed() && !c07 && pre && len(live) >= 1 {
 		ok, why := converged()
 		if !ok {
+			if lost, how := refutationLost(); sig == "" && lost {
+				sig = "C05/refutation-gossiped-only-to-crashed-members"
+				c.Reach("refutation_gossiped_only_to_crashed_members")
+				why += "; " + how
+			}
 			c.Violate("not-converged", sig, "", "live views did not converge within W=%v after faults stopped at %v: %s", w, tf, why)
 		}
 	}
@@ -399,6 +504,11 @@ func execC05(c *Ctx) {
 				return ok
 			})
 			if ok, why := converged(); !ok && !c.Failed() {
+				if lost, how := refutationLost(); sig == "" && lost {
+					sig = "C05/refutation-gossiped-only-to-crashed-members"
+					c.Reach("refutation_gossiped_only_to_crashed_members")
+					why += "; " + how
+				}
 				c.Violate("not-converged", sig, "", "views converged %v after faults stopped, diverged again and had not re-converged by T_f+W (W=%v): %s", convAt-tf, w, why)
 			}
 		}
